@@ -17,6 +17,8 @@ import (
 	"compiler/verifh/c10"
 	"compiler/verifh/c11"
 	"compiler/verifh/c12"
+	"compiler/verifh/c14"
+	"compiler/verifh/c15"
 	"compiler/verifh/c16"
 	"compiler/verifh/c17"
 	"compiler/verifh/c19"
@@ -37,6 +39,8 @@ var checks = map[string]func(*vl.Ctx){
 	"C10": c10.Run,
 	"C11": c11.Run,
 	"C12": c12.Run,
+	"C14": c14.Run,
+	"C15": c15.Run,
 	"C16": c16.Run,
 	"C17": c17.Run,
 	"C19": c19.Run,
